@@ -8,6 +8,7 @@ Spec == x = 0 /\ [][x' = x]_x
 Ok(ev) == CASE ev.e = "store" -> StoreAllowed(ev)
             [] ev.e = "load" -> LoadAllowed(ev)
             [] ev.e = "ptrload" -> PtrLoadAllowed(ev)
+            [] ev.e = "ptrloadrun" -> PtrLoadRunAllowed(ev)
             [] ev.e = "ptrstore" -> PtrStoreAllowed(ev)
             [] ev.e = "ptrchain" -> NeverOut(ev)
             [] ev.e = "entry" -> EntryAllowed(ev)
